@@ -1,6 +1,6 @@
 (* include: gqlread *)
 (* C04 driver.  Case lines (harness/cmd/c04):
-     (c04schema N <schema>)                      remembered, no verdict
+     (c04schema N <schema> "SDL")                remembered, no verdict
      (c04 N (meta valid|mutant "op" (feat ...)) <doc> <opname> (go t|f "stage" "family" "msg"))
         the extracted spec_valid_b is evaluated on the ORIGINAL document; it must agree with Go's
         accept/reject:  specfail accept_iff_valid (go=.. spec=.. rules=.. op=.. family=..)
@@ -185,7 +185,7 @@ let rec show_sel = function
 
 let handle (x : sexp) : (string * string) list =
   match x with
-  | L [A "c04schema"; A id; sch] -> Hashtbl.replace schemas id (schema_ext sch); []
+  | L (A "c04schema" :: A id :: sch :: _) -> Hashtbl.replace schemas id (schema_ext sch); []
   | L [A "c04"; _; _; _; _; L [A "go"; _; S "panic"; _; S msg]] ->
     [("specfail", "total: the admission sequence panicked: " ^ msg)]
   | L [A "c04"; A id; L (A "meta" :: A kind :: S op :: _); doc; opname; L [A "go"; acc; S stage; S fam; S gomsg]] ->
